@@ -62,9 +62,11 @@ func checkC15(c *Ctx, r *Report) {
 	checkECIEmission(c, r)
 	checkGuessUTF8(c, r)
 	checkGuessHint(c, r)
+	checkECIBeatsHint(c, r)
 	checkByteSegmentTranscode(c, r)
 	checkHintForwarding(c, r) // a CHARACTER_SET decode hint must reach every retry
 	checkQRSegments(c, r)     // Kanji mode (chosen under a Shift_JIS hint): the double-byte arithmetic of writer and reader are inverse
+	checkQRCounts(c, r)       // ... and the character count written for it counts characters, not bytes (also C01)
 	r.Note("not decided: charset guessing over whole texts (only single well-formed multi-byte characters, S-GUESS); per-charset transcoding (golang.org/x/text)")
 }
 
@@ -461,25 +463,40 @@ func checkECIEmission(c *Ctx, r *Report) {
 	// (1) unknown name -> error
 	okUnknown := false
 	var encObj, hasHintObj types.Object
+	// the lookup of the hinted name: (entry, found); whatever way the test of `found` is spelled, the branch taken
+	// when it is false must return an error, and the charset used is the entry's
+	var entryObj, foundObj types.Object
 	ast.Inspect(fd.Body, func(n ast.Node) bool {
-		ifs, ok := n.(*ast.IfStmt)
-		if !ok || ifs.Init == nil || ifs.Else == nil {
-			return true
+		if as, ok := n.(*ast.AssignStmt); ok && len(as.Rhs) == 1 && len(as.Lhs) == 2 {
+			if call, ok := as.Rhs[0].(*ast.CallExpr); ok && isFuncNamed(typeutil.Callee(p.TypesInfo, call), "common", "GetCharacterSetECIByName") {
+				entryObj, foundObj = identObj(p, as.Lhs[0]), identObj(p, as.Lhs[1])
+			}
 		}
-		as, ok := ifs.Init.(*ast.AssignStmt)
-		if !ok {
-			return true
-		}
-		call, ok := as.Rhs[0].(*ast.CallExpr)
-		if !ok || !isFuncNamed(typeutil.Callee(p.TypesInfo, call), "common", "GetCharacterSetECIByName") {
-			return true
-		}
-		if eb, ok := ifs.Else.(*ast.BlockStmt); ok && blockReturnsError(p, eb.List, nil) {
-			okUnknown = true
-		}
-		for _, st := range ifs.Body.List {
-			if a2, ok := st.(*ast.AssignStmt); ok && len(a2.Lhs) == 1 {
-				encObj = identObj(p, a2.Lhs[0])
+		return true
+	})
+	ast.Inspect(fd.Body, func(n ast.Node) bool {
+		switch x := n.(type) {
+		case *ast.IfStmt:
+			if foundObj == nil || !usesIdent(p, x.Cond, foundObj) {
+				return true
+			}
+			v, err := c.rpfExpr(p, x.Cond, map[types.Object]*Val{foundObj: vbool(false)}, nil)
+			if err != nil || v.K != VBool {
+				return true
+			}
+			if v.B && blockReturnsError(p, x.Body.List, nil) {
+				okUnknown = true
+			}
+			if eb, isB := x.Else.(*ast.BlockStmt); !v.B && isB && blockReturnsError(p, eb.List, nil) {
+				okUnknown = true
+			}
+		case *ast.AssignStmt:
+			if len(x.Lhs) == 1 && len(x.Rhs) == 1 && entryObj != nil {
+				if call, ok := ast.Unparen(x.Rhs[0]).(*ast.CallExpr); ok && isMethodNamed(typeutil.Callee(p.TypesInfo, call), "common", "CharacterSetECI", "GetCharset") {
+					if sel, ok := call.Fun.(*ast.SelectorExpr); ok && identObj(p, sel.X) == entryObj {
+						encObj = identObj(p, x.Lhs[0])
+					}
+				}
 			}
 		}
 		return true
@@ -934,4 +951,89 @@ func checkGuessHint(c *Ctx, r *Report) {
 	}
 	r.Extra("M-GUESSHINT folds", folds)
 	reportFold(r, c, "M-GUESSHINT", key, fd.Pos(), bad)
+}
+
+// M-ECIWINS: a designator carried by the symbol decides the character set of the byte segment, whatever the caller hints
+func checkECIBeatsHint(c *Ctx, r *Report) {
+	r.Rule("M-ECIWINS", "DecodedBitStreamParser_decodeByteSegment, folded with the bit source, the guess and the transcoder replaced by recorders: when an ECI is in force the bytes are decoded with that entry's GetCharset() - with no decode hints and with a CHARACTER_SET decode hint alike - and StringUtils_guessCharset is not consulted; without an ECI the character set is what guessCharset(readBytes, hints) answers", 1)
+	fd, p := c.funcDeclOf("qrcode/decoder", "DecodedBitStreamParser_decodeByteSegment")
+	key := "qrcode/decoder.DecodedBitStreamParser_decodeByteSegment/charset-choice"
+	if fd == nil {
+		r.AnchorLost("M-ECIWINS", key, "function not found")
+		return
+	}
+	r.Analysed(key)
+	hk, ok := constValIn(c, "", "DecodeHintType_CHARACTER_SET")
+	if !ok {
+		r.Undecided("M-ECIWINS", key, c.pos(fd.Pos()), "DecodeHintType_CHARACTER_SET is not a constant")
+		return
+	}
+	bad := ""
+	for _, withECI := range []bool{true, false} {
+		for _, withHint := range []bool{false, true} {
+			if bad != "" {
+				break
+			}
+			eci := &Val{K: VNil}
+			if withECI {
+				eci = &Val{K: VStruct, Ptr: true, Fields: map[string]*Val{"tag": vstr("eci")}}
+			}
+			hints := &Val{K: VNil}
+			if withHint {
+				hints = &Val{K: VStruct, Fields: map[string]*Val{fmt.Sprint(hk): vstr("ISO-8859-1")}}
+			}
+			used, guesses := "", 0
+			h := &rpf{unroll: 64}
+			h.callHook = func(rr *rpf, call *ast.CallExpr, callee types.Object) (*Val, bool) {
+				fn, ok := callee.(*types.Func)
+				if !ok {
+					return nil, false
+				}
+				switch {
+				case isMethodNamed(callee, "common", "BitSource", "Available"):
+					return vint(1 << 20), true
+				case isMethodNamed(callee, "common", "CharacterSetECI", "GetCharset"):
+					return vstr("charset of the ECI"), true
+				case fn.Name() == "NewDecoder":
+					if sel, ok := call.Fun.(*ast.SelectorExpr); ok {
+						if v := rr.expr(sel.X); v.K == VStr {
+							used = v.S
+							return vstr("decoder of " + v.S), true
+						}
+					}
+					rpfFail("NewDecoder on an undetermined character set")
+				}
+				return errCtorHook(rr, call, callee)
+			}
+			h.multiHook = func(call *ast.CallExpr, callee types.Object) ([]*Val, bool) {
+				fn, ok := callee.(*types.Func)
+				if !ok {
+					return nil, false
+				}
+				switch {
+				case isMethodNamed(callee, "common", "BitSource", "ReadBits"):
+					return []*Val{vint(0x41), {K: VNil}}, true
+				case isFuncNamed(callee, "common", "StringUtils_guessCharset"):
+					guesses++
+					return []*Val{vstr("guess"), {K: VNil}}, true
+				case fn.Pkg() != nil && fn.Pkg().Path() == "golang.org/x/text/transform" && fn.Name() == "Append":
+					return []*Val{rpfCurrent.expr(call.Args[1]), vint(0), {K: VNil}}, true
+				}
+				return nil, false
+			}
+			res, err := c.rpfCall(fd, p, []*Val{{K: VStruct, Ptr: true, Fields: map[string]*Val{}}, {K: VList, Local: true}, vint(2), eci, {K: VList, Local: true}, hints}, h)
+			desc := map[bool]string{true: "an ECI in force", false: "no ECI"}[withECI] + map[bool]string{true: " and a CHARACTER_SET decode hint", false: ", no hints"}[withHint]
+			switch {
+			case err != nil:
+				bad = "?" + desc + ": " + err.Error()
+			case len(res) != 3 || res[2].K != VNil:
+				bad = desc + ": the segment is refused"
+			case withECI && (used != "charset of the ECI" || guesses != 0):
+				bad = fmt.Sprintf("%s: the bytes are decoded as %q (guessCharset consulted %d times); the symbol's own designator must decide", desc, used, guesses)
+			case !withECI && (used != "guess" || guesses != 1):
+				bad = fmt.Sprintf("%s: the bytes are decoded as %q (guessCharset consulted %d times); expected the guess", desc, used, guesses)
+			}
+		}
+	}
+	reportFold(r, c, "M-ECIWINS", key, fd.Pos(), bad)
 }
